@@ -450,6 +450,71 @@ pub fn protected_pool() -> Vec<PoolName> {
         .collect()
 }
 
+/// Options a caller writes out by hand: text identifiers and attribute prefixes other than the presets'
+/// (`$value`, `$type`, `value`, `#text`; `@`, empty, `a_`), over names that meet them (`value`, `type`,
+/// `text`, `Value`, `a_value`). The statement of C04 does not restrict the options.
+fn custom_options(ctx: &Ctx) {
+    use xml_schema_generator::{Options, SortBy};
+    let names: Vec<PoolName> = ["value", "type", "text", "Value", "a_value"]
+        .iter()
+        .map(|n| PoolName { name: n, category: "option-stem", element: true })
+        .collect();
+    let mut opts: Vec<Options> = Vec::new();
+    for ti in ["$value", "$type", "value", "#text"] {
+        for ap in ["@", "", "a_"] {
+            opts.push(Options { text_identifier: ti.to_string(), attribute_prefix: ap.to_string(), derive: "Serialize, Deserialize".to_string(), sort: SortBy::Unsorted });
+        }
+    }
+    let subs = subsets(names.len(), 2);
+    let params = TreeParams { min_nodes: 0, max_nodes: 2, max_decorated: 2, root_from_subset: true, shard: (0, 1) };
+    let res = par_for(
+        subs.len() as u64,
+        ctx.threads,
+        1,
+        Some(ctx.deadline),
+        |_| (0u64, HashSet::<u64>::new()),
+        |acc, si| {
+            let subset: Vec<PoolName> = subs[si as usize].iter().map(|&i| names[i]).collect();
+            let mut local = 0u64;
+            for_each_tree(&subset, &params, &mut |root| {
+                local += 1;
+                let rank = (1 << 57) | (si << 24) | local.min(0xff_ffff);
+                let d = DocEntry::from_root(root.clone());
+                let el = match run_history(&[&d]) {
+                    Ok(el) => el,
+                    Err(_) => return,
+                };
+                for o in &opts {
+                    acc.0 += 1;
+                    let text = match subject::guarded(|| el.to_serde_struct(o)) {
+                        Ok(t) => t,
+                        Err(p) => format!("PANIC(render): {}", p),
+                    };
+                    if acc.1.insert(fnv(&text)) {
+                        let mut vs = judge(&[&d], &text, rank);
+                        for v in vs.iter_mut() {
+                            v.summary = format!("{} | text_identifier={:?} attribute_prefix={:?}", v.summary, o.text_identifier, o.attribute_prefix);
+                            v.replay["options"] = json!({"text_identifier": o.text_identifier, "attribute_prefix": o.attribute_prefix});
+                        }
+                        ctx.report_all(vs);
+                    }
+                }
+            });
+        },
+    );
+    let evals: u64 = res.accs.iter().map(|a| a.0).sum();
+    let mut distinct: HashSet<u64> = HashSet::new();
+    for a in res.accs {
+        distinct.extend(a.1);
+    }
+    ctx.add("evaluations", evals);
+    ctx.set("custom_options", json!({"names": names.iter().map(|p| p.name).collect::<Vec<_>>(), "option_tuples": opts.len(), "renderings": evals, "distinct_renderings": distinct.len()}));
+    if !res.complete {
+        ctx.set("exhaustive", json!(false));
+        ctx.push("caps", json!("custom options: wall budget"));
+    }
+}
+
 pub fn run(ctx: &Ctx) {
     ctx.set("exhaustive", json!(true));
     let pool = pool(&[]);
@@ -464,6 +529,7 @@ pub fn run(ctx: &Ctx) {
         sweep(ctx, &format!("separator-path names {:?}, 4-subsets, 5 nodes, undecorated", set.iter().map(|p| p.name).collect::<Vec<_>>()), &set, 4,
               &TreeParams { min_nodes: 5, max_nodes: 5, max_decorated: 0, root_from_subset: false, shard: (0, 1) }, false);
     }
+    custom_options(ctx);
     two_level_concat(ctx);
     deep_documents(ctx);
     chardata_documents(ctx);
@@ -523,6 +589,18 @@ pub fn replay(ctx: &Ctx, case: &Value) {
                 let mut classes = Vec::new();
                 for preset in [Preset::QuickXml, Preset::SerdeXmlRs] {
                     let text = subject::render(&el, preset, false);
+                    let vs = judge(&refs, &text, 0);
+                    classes.extend(vs.iter().map(|v| v.class.clone()));
+                    ctx.report_all(vs);
+                }
+                if let Some(o) = case.get("options") {
+                    let opt = xml_schema_generator::Options {
+                        text_identifier: o["text_identifier"].as_str().unwrap_or("$text").to_string(),
+                        attribute_prefix: o["attribute_prefix"].as_str().unwrap_or("@").to_string(),
+                        derive: "Serialize, Deserialize".to_string(),
+                        sort: xml_schema_generator::SortBy::Unsorted,
+                    };
+                    let text = subject::guarded(|| el.to_serde_struct(&opt)).unwrap_or_else(|p| format!("PANIC(render): {}", p));
                     let vs = judge(&refs, &text, 0);
                     classes.extend(vs.iter().map(|v| v.class.clone()));
                     ctx.report_all(vs);
